@@ -29,6 +29,8 @@ pub struct IoStats {
   #[serde(default)]
   pub bytes_after_error: u64,
   pub flushes: u64,
+  #[serde(default)]
+  pub vectored_calls: u64,
 }
 
 pub struct SimWriter {
@@ -119,6 +121,19 @@ impl Write for SimWriter {
       }
     }
     Ok(n as usize)
+  }
+
+  fn write_vectored(&mut self, bufs: &[io::IoSlice<'_>]) -> io::Result<usize> {
+    if !self.plan.vectored {
+      // std's default: the first non-empty buffer
+      let buf = bufs.iter().find(|b| !b.is_empty()).map_or(&[][..], |b| &**b);
+      return self.write(buf);
+    }
+    // a real scatter/gather sink: one byte count across all buffers, so a
+    // short write can end anywhere, also exactly on or just behind a boundary
+    let joined: Vec<u8> = bufs.iter().flat_map(|b| b.iter().copied()).collect();
+    self.stats.vectored_calls += 1;
+    self.write(&joined)
   }
 
   fn flush(&mut self) -> io::Result<()> {
